@@ -49,3 +49,9 @@ def cases(rng, tier):
         nt = len(set(s)) >= 2
         yield Case(block(s), {"kind": kind}, nontrivial=nt)
         yield Case(block(gen.permute(s, rng)), {"kind": kind + "-perm"}, nontrivial=nt)
+    # raw constructor arguments with white space (blocks of ten, line breaks, tabs): same answers as the normalised word
+    for kind, s in gen.rand_seqs(rng, 30 if tier == "quick" else 300, 80):
+        yield Case(gen.ws_lines(block(s), rng), {"kind": "whitespace-input"})
+    # long sequences with > 127 / > 255 charged or neutral residues, net charge beyond +-127, length > 256
+    for s in gen.large_regime():
+        yield Case(block(s), {"kind": "large-regime"})
